@@ -161,6 +161,9 @@ def gen_cases(rng, n):
     cases = []
     for i in range(n):
         opts = cc.gen_options(rng)
+        if opts.get('reject_regex') and rng.random() < 0.5:
+            # a script's accept_url hook that keeps (some of) what the reject pattern refuses
+            opts['plugin_accept'] = rng.choice([opts['reject_regex'], 'p[12]', '/d/p'])
         site = cc.gen_site(rng, start_deep=opts['no_parent'])
         chain = cc.longest_chain(site)
         if chain and rng.random() < 0.5:
